@@ -67,6 +67,7 @@ type bStep struct {
 	Crash *bCrash  `json:"crash,omitempty"`
 	Clean bool     `json:"clean,omitempty"`
 	Rerun bool     `json:"rerun,omitempty"` // run again on the same Project without reloading
+	Reuse bool     `json:"reuse,omitempty"` // do not reload: use the Project of the previous build step (REPL session)
 }
 
 type bCase struct {
@@ -102,6 +103,7 @@ type bWorld struct {
 	execLog []string
 	crash   *bCrash
 	hits    map[string]int
+	proj    *Project // the project of the last build step (for session steps)
 }
 
 // value of the env atom of a target at a version, by value class; the sequences straddle
@@ -560,12 +562,21 @@ func (w *bWorld) build(st *bStep) {
 	}
 	opts := w.options()
 	opts.PreferIndex = st.Index
-	proj, err := Load(w.dir, opts)
-	if err != nil {
-		w.logEvent("Load", "ok", false, "msg", err.Error())
-		return
+	var proj *Project
+	var err error
+	if st.Reuse && w.proj != nil {
+		proj = w.proj
+	} else {
+		st.Reuse = false
+		proj, err = Load(w.dir, opts)
+		if err != nil {
+			w.logEvent("Load", "ok", false, "msg", err.Error())
+			w.proj = nil
+			return
+		}
+		w.logEvent("Load", "ok", true)
 	}
-	w.logEvent("Load", "ok", true)
+	w.proj = proj
 	if st.GC {
 		before, _ := w.records()
 		treeBefore := bDigest(w.dir, false)
@@ -592,7 +603,7 @@ func (w *bWorld) build(st *bStep) {
 			w.logEvent("Digest", "when", "before", "state", bDigest(w.dir, true), "tree", bDigest(w.dir, false))
 		}
 		mode := st.Mode
-		if rep > 0 {
+		if rep > 0 || st.Reuse {
 			w.logEvent("BuildBegin", "root", st.Root, "mode", "rerun")
 		} else {
 			w.logEvent("BuildBegin", "root", st.Root, "mode", mode)
@@ -743,6 +754,18 @@ func (w *bWorld) apply(c *bCase, st *bStep, exe string) error {
 			}
 		}
 		w.logEvent("NonEdit", "kind", st.Kind)
+	case "fault":
+		// replace the sources (or generated files) directory by a regular file: every path
+		// below it then fails with ENOTDIR, which is not "does not exist"
+		d := filepath.Join(w.dir, st.Kind)
+		os.Rename(d, d+".hold")
+		os.WriteFile(d, []byte("not a directory"), 0644)
+		w.logEvent("Fault", "kind", st.Kind)
+	case "unfault":
+		d := filepath.Join(w.dir, st.Kind)
+		os.Remove(d)
+		os.Rename(d+".hold", d)
+		w.logEvent("Unfault", "kind", st.Kind)
 	case "reshape":
 		if c.Shape2 != nil {
 			w.shape = c.Shape2
